@@ -15,6 +15,7 @@ shutil.copy(src + '/patch.diff', dst)
 shutil.copytree(src + '/demo', dst + '/demo')
 meta = json.load(open(src + '/meta.json'))
 meta['round'] = 4
+meta['property'] = sid[:3]
 head = subprocess.check_output(['git', '-C', '/repo', 'rev-parse', '--short', 'HEAD']).decode().strip()
 meta['verified_by_me'] = {'base_commit': head, 'worktree': '/tmp/vs/' + sid + ' (removed)', 'ran': [
     'bash demo/run.sh <clean worktree> -> exit 0', 'git apply patch.diff; go build ./... -> ok; go vet ./... -> exit %d' % v,
